@@ -307,6 +307,27 @@ def run_case(case):
                 or not np.array_equal(back, base):
             v.append({"kind": "package-decoder-differs", "detail": f"{ctx}: round trip "
                       "through the package decoder changed the array"})
+        if case["vseed"] % 4 < 2:
+            # the same encoder object then decodes ANOTHER chunk of the same shape (a
+            # background-only one, and a sparse one): nothing of the chunk decoded before
+            # may show through, and the earlier result stays what it was
+            held = back.copy()
+            zeros = np.zeros_like(base)
+            sparse = np.zeros_like(base)
+            sparse[..., ::3] = base[..., ::3]
+            for other in (zeros, sparse):
+                got = enc.decode(bytes(enc.encode(other)), (X, Y, Z))
+                obs["second_chunk_decoded_by_the_same_object"] = 1
+                if not np.array_equal(got, other):
+                    v.append({"kind": "package-decoder-differs", "detail": f"{ctx}: a second "
+                              "chunk of the same shape decoded by the same encoder object "
+                              f"differs from its labels in {int((got != other).sum())} "
+                              "voxels"})
+                    break
+            if not np.array_equal(back, held):
+                v.append({"kind": "package-decoder-differs", "detail": f"{ctx}: the array "
+                          "returned for the first chunk changed when the same object decoded "
+                          "another chunk"})
     except Exception as exc:  # noqa: BLE001
         v.append({"kind": "package-decoder-raised",
                   "detail": f"{ctx}: {type(exc).__name__}: {exc}"})
@@ -416,6 +437,8 @@ def gates(obs, tier):
         "shared_tables_emitted": obs.get("tables_shared_by_encoder", 0) > 10,
         "alternative_layouts_decoded": obs.get("alt_layouts_decoded", 0) > 50,
         "production_sized_chunk": obs.get("chunk_of_64_cubed", 0) > 0,
+        "second_chunk_decoded_by_the_same_object": obs.get(
+            "second_chunk_decoded_by_the_same_object", 0) > 500,
         "channel_beyond_24_bit_table_offsets": obs.get(
             "oversized_channel_refused", 0) + obs.get("oversized_channel_encoded", 0) > 0,
         "byte_sparse_label_palettes": obs.get("byte_sparse_palettes", 0) > 50,
